@@ -111,6 +111,7 @@ func (e *syncEnv) RequestBlock(ctx context.Context, hash Hash, handler bitcoin_r
 		}
 	}
 	e.log("request", hash, note)
+	reqIdx := len(e.events) - 1
 	seed := e.rng.Int63()
 	e.mu.Unlock()
 	if beh == "notavail" || blk == nil {
@@ -149,8 +150,26 @@ func (e *syncEnv) RequestBlock(ctx context.Context, hash Hash, handler bitcoin_r
 		ch := make(chan *wire.MsgTx, 1000)
 		stopFeed := make(chan struct{})
 		var once sync.Once
+		// The manager handles one block request at a time and cancels every download of a block
+		// before it turns to the next request: once another block has been requested, this
+		// download must have been cancelled (looked at before the node starts delivering, so that
+		// a cancellation arriving in between cannot be mistaken).
+		e.mu.Lock()
+		movedOn := -1
+		for _, ev := range e.events[reqIdx+1:] {
+			if ev.Kind == "request" && ev.Hash != hash {
+				movedOn = e.height[ev.Hash]
+				break
+			}
+		}
+		e.mu.Unlock()
 		if !node.BeginHandler(func() { once.Do(func() { close(stopFeed) }) }) {
 			return
+		}
+		if movedOn >= 0 {
+			e.mu.Lock()
+			e.violations = append(e.violations, fmt.Sprintf("download-not-cancelled-when-its-block-request-ended|the download of the block at height %d requested from a slow node was still not cancelled after the manager had gone on to request the block at height %d: the node delivers the block again", ht, movedOn))
+			e.mu.Unlock()
 		}
 		deliver := blk
 		if beh == "wrong" {
@@ -572,6 +591,9 @@ func c05Case(ctx context.Context, run *common.Run, obs *c05obs, idx int, orphan 
 		feature := tipStartFeature(L, start)
 		if parts[0] == "already-processed-block-requested" {
 			feature = concFeature(conc)
+		}
+		if parts[0] == "download-not-cancelled-when-its-block-request-ended" {
+			clause, feature = "each-block-processed-at-most-once-per-round", ""
 		}
 		if parts[0] == "abandoned-branch-block-requested-after-orphan-abort" {
 			clause, feature = "orphaned-block-abandoned-and-later-round-continues-on-new-best-chain", ""
